@@ -25,6 +25,7 @@ func VerifItems[PK any, K comparable, V any](p *ECache[PK, K, V]) (nodes, delete
 		}
 		fmt.Fprintf(&b, "%d.%d|", n.State, n.RefCnt)
 	}
+	b.WriteString("pool:" + strings.Join(iterable.VerifPoolDump(p.items), ","))
 	return len(ns), deleted, refd, p.items.Len(), probs, b.String(), len(p.inflight)
 }
 
